@@ -773,6 +773,27 @@ class Abs:
                         acc_ = kk if acc_ is None else self.join(acc_, kk)
                     if acc_ is not None:
                         k = acc_
+                if k[0] == 'unknown' and isinstance(
+                        d[1], ast.Call) and isinstance(
+                            d[1].func, ast.Attribute) and \
+                        d[1].func.attr == 'get' and isinstance(
+                            d[1].func.value, ast.Name) and len(
+                                m.globals.get(d[1].func.value.id,
+                                              [])) == 1 and isinstance(
+                                    m.globals[d[1].func.value.id][0],
+                                    ast.Dict) and len(d[1].args) == 2:
+                    # a, b = TABLE.get(key, DEFAULT): rows and the default
+                    dfl_ = d[1].args[1]
+                    if isinstance(dfl_, ast.Name) and len(m.globals.get(
+                            dfl_.id, [])) == 1:
+                        acc_ = self.kind(m.globals[dfl_.id][0], m, None, {},
+                                         depth + 1)
+                    else:
+                        acc_ = self.kind(dfl_, m, f, env, depth + 1)
+                    for row in m.globals[d[1].func.value.id][0].values:
+                        kk = self.kind(row, m, None, {}, depth + 1)
+                        acc_ = self.join(acc_, kk)
+                    k = acc_
                 if k[0] == 'pytuple' and d[2] < len(k[1]):
                     k = k[1][d[2]]
                 elif k[0] == 'node':
